@@ -146,6 +146,60 @@ def replay_case(B, case, rep, origin):
     return False
 
 
+class _Collector(object):
+    """Stand-in for the report inside a worker process."""
+
+    def __init__(self):
+        self.viol = {}
+        self.counts = {}
+
+    def violation(self, sig, what, witness):
+        if sig in self.viol:
+            self.viol[sig][2] += 1
+        else:
+            self.viol[sig] = [what, witness, 1]
+
+    def add(self, key, n=1):
+        self.counts[key] = self.counts.get(key, 0) + n
+
+
+_MP = {}
+
+
+def _replay_chunk(span):
+    B, cases, origin = _MP['B'], _MP['cases'], _MP['origin']
+    col = _Collector()
+    ok = 0
+    for c in cases[span[0]:span[1]]:
+        if replay_case(B, c, col, origin):
+            ok += 1
+    return ok, col.viol, col.counts
+
+
+def replay_all(B, cases, rep, origin, nproc=1):
+    """Replay every predicted behaviour; big batches are split over forked worker processes."""
+    if nproc <= 1 or len(cases) < 20000:
+        for c in cases:
+            if replay_case(B, c, rep, origin):
+                rep.validated()
+        return
+    import multiprocessing
+    _MP.update(B=B, cases=cases, origin=origin)
+    step = 2000
+    spans = [(i, min(i + step, len(cases))) for i in range(0, len(cases), step)]
+    try:
+        with multiprocessing.get_context('fork').Pool(nproc) as pool:
+            for ok, viol, counts in pool.imap(_replay_chunk, spans):
+                rep.validated(ok)
+                for sig, (what, witness, n) in viol.items():
+                    for _ in range(n):
+                        rep.violation(sig, what, witness)
+                for k, n in counts.items():
+                    rep.add(k, n)
+    finally:
+        _MP.clear()
+
+
 # ---------------------------------------------------------------------------------------------------------
 # real threads
 
@@ -281,6 +335,7 @@ def run(rep):
     quick = rep.tier == 'quick'
     seed = common.seed()
     W = int(os.environ.get('VERIF_WORKERS', '16'))
+    NPROC = 1 if quick else min(W, 8)
     WP = min(W, 8)      # runs that print one JSON line per behaviour: more workers only contend
 
     # --- vacuity: every action of the specification is taken (tiny instance, coverage on)
@@ -292,7 +347,7 @@ def run(rep):
     rep.add_tlc(res)
 
     # --- design level: two threads interleaved, all invariants + Isolation
-    design = [(2, 1, 2, 'KindsTiny')] if quick else [(2, 2, 2, 'KindsSmall'), (3, 2, 3, 'KindsTiny'), (4, 1, 4, 'KindsTiny')]
+    design = [(2, 1, 2, 'KindsTiny')] if quick else [(2, 2, 2, 'KindsSmall'), (4, 1, 4, 'KindsTrio')]
     for (d, w, n, ks) in design:
         res = tlc.run_tlc('CtxStack', _cfg([1, 2], d, w, n, ks, False), workers=W, timeout=1500,
                           name='CtxStack_2t').require_ok('CtxStack two threads %s' % ((d, w, n, ks),))
@@ -313,9 +368,7 @@ def run(rep):
             cases = [c for c in res.json if isinstance(c, dict) and 'tree' in c]
             if not cases and nparts == 1:
                 raise common.MachineryError('CtxStack BFS printed no behaviours')
-            for c in cases:
-                if replay_case(B, c, rep, 'bfs %s' % ((d, w, n, ks),)):
-                    rep.validated()
+            replay_all(B, cases, rep, 'bfs %s' % ((d, w, n, ks),), NPROC)
             rep.add('behaviours_exhaustive', len(cases))
             if cases:
                 rep.sample(dict(tree=[[x['p'], klabel(x['k']), x['catch'], x['raises']] for x in cases[len(cases) // 2]['tree']],
@@ -329,9 +382,7 @@ def run(rep):
     rep.add_tlc(res)
     sims = [c for c in res.json if isinstance(c, dict) and 'tree' in c]
     sims.sort(key=lambda c: json.dumps(c, sort_keys=True))
-    for c in sims:
-        if replay_case(B, c, rep, 'simulate depth 4'):
-            rep.validated()
+    replay_all(B, sims, rep, 'simulate depth 4', NPROC)
     rep.add('behaviours_sampled', len(sims))
     pool = [c for c in sims if c['tree']]
     if not pool:
